@@ -35,8 +35,9 @@ type Sched struct {
 }
 
 type Case struct {
-	Prog   ProgSpec `json:"prog"`
-	Mode   uint     `json:"mode"`
+	Prog     ProgSpec `json:"prog"`
+	Mode     uint     `json:"mode"`
+	CPULimit int      `json:"cpu_limit"` // capacity of go/ir's package-level build semaphore
 	Scheds []Sched  `json:"scheds"`
 }
 
@@ -263,6 +264,11 @@ func pkgPath(fn *ir.Function) string {
 func execute(c Case, tapes *[][]uint32) batch.Result {
 	res := batch.Result{Counters: map[string]int{}}
 	mode := ir.BuilderMode(c.Mode)
+	if c.CPULimit <= 0 {
+		c.CPULimit = 4
+	}
+	ir.VerifSetCPULimit(c.CPULimit)
+	res.Counters[fmt.Sprintf("cpu_limit:%d", c.CPULimit)]++
 	// reference: serial build of a fresh program, no simulation
 	rprog, _, _, err := create(&c.Prog, mode|ir.BuildSerially)
 	if err != nil {
@@ -274,7 +280,7 @@ func execute(c Case, tapes *[][]uint32) batch.Result {
 		rprog.Build()
 		verifsim.Quiesce()
 	})
-	ir.VerifResetCPULimit()
+	ir.VerifSetCPULimit(c.CPULimit)
 	if len(rvr.Panics) > 0 {
 		return batch.Result{Violation: &batch.Violation{Class: "panic", Detail: fmt.Sprintf("serial reference build panicked: %s\n%s", rvr.Panics[0].Value, firstLines(rvr.Panics[0].Stack, 30))}}
 	}
@@ -294,7 +300,7 @@ func execute(c Case, tapes *[][]uint32) batch.Result {
 	for si := range c.Scheds {
 		s := &c.Scheds[si]
 		r := &runner{ref: ref, cnt: res.Counters}
-		r.what = fmt.Sprintf("schedule #%d (driver %q, strategy %s, seed %d, cpuLimit %d)", si, driverNames[s.Driver%len(driverNames)], verifsim.Strategy(s.Strategy), s.Seed, verifsim.Procs())
+		r.what = fmt.Sprintf("schedule #%d (driver %q, strategy %s, seed %d, cpuLimit %d)", si, driverNames[s.Driver%len(driverNames)], verifsim.Strategy(s.Strategy), s.Seed, c.CPULimit)
 		prog, pkgs, chk, err := create(&c.Prog, mode)
 		if err != nil {
 			return batch.Result{Infra: err.Error()}
@@ -408,7 +414,7 @@ func execute(c Case, tapes *[][]uint32) batch.Result {
 			// wg.Done: let them finish (the "process" does not exit here)
 			verifsim.Quiesce()
 		})
-		ir.VerifResetCPULimit()
+		ir.VerifSetCPULimit(c.CPULimit)
 		if tapes != nil {
 			*tapes = append(*tapes, vr.Tape)
 		}
@@ -462,7 +468,7 @@ func execute(c Case, tapes *[][]uint32) batch.Result {
 	for _, d := range digests {
 		res.Digest = res.Digest*1099511628211 ^ d
 	}
-	res.Sample = map[string]any{"user_packages": len(c.Prog.Users), "stmts_u0": c.Prog.Users[0].Stmts, "mode": ir.BuilderMode(c.Mode).String(), "schedules": len(c.Scheds), "first_schedule": c.Scheds[0], "functions": nfn, "cpu_limit": verifsim.Procs()}
+	res.Sample = map[string]any{"user_packages": len(c.Prog.Users), "stmts_u0": c.Prog.Users[0].Stmts, "mode": ir.BuilderMode(c.Mode).String(), "schedules": len(c.Scheds), "first_schedule": c.Scheds[0], "functions": nfn, "cpu_limit": c.CPULimit}
 	return res
 }
 
@@ -484,6 +490,7 @@ func (engine) Generate(seed uint64, index int, tier string) json.RawMessage {
 	c := Case{Prog: genProg(&r, tier)}
 	modes := []ir.BuilderMode{0, ir.InstantiateGenerics, ir.InstantiateGenerics | ir.GlobalDebug, ir.InstantiateGenerics | ir.SanityCheckFunctions, ir.NaiveForm | ir.InstantiateGenerics, ir.GlobalDebug, ir.BareInits | ir.InstantiateGenerics}
 	c.Mode = uint(modes[r.N(len(modes))])
+	c.CPULimit = []int{1, 2, 4, 16}[r.N(4)]
 	n := 25
 	if tier == "thorough" {
 		n = 50
@@ -614,7 +621,7 @@ func (engine) Minimize(raw json.RawMessage, still func(json.RawMessage) bool) js
 
 func (engine) Describe() batch.Description {
 	return batch.Description{
-		Rule: "each case: one seeded program (a generic library package and 2-6 (thorough 2-13) user packages that instantiate the same generic functions/methods with the same type arguments, convert types with promoted methods (embedded struct, embedded pointer, embedded interface, two levels) to interfaces, take bound method values, method expressions and interface method values, use range-over-func, and call each other) type-checked from scratch per build; built serially without simulation as reference, then under 25 (thorough 50) seeded (schedule, driver) combinations with drivers {prog.Build; one task per package; two tasks per package; prog.Build twice concurrently; prog.Build with concurrent MethodValue callers; per-package Build of a subset plus prog.Build}; builder modes {0, InstantiateGenerics, +GlobalDebug, +SanityCheckFunctions, +NaiveForm, GlobalDebug, BareInits}; cpuLimit capacity in {1,2,4,16} (one per worker process). An evaluation is one simulated build; distinct = distinct (kernel event digest, IR dump) pairs.",
+		Rule: "each case: one seeded program (a generic library package and 2-6 (thorough 2-13) user packages that instantiate the same generic functions/methods with the same type arguments, convert types with promoted methods (embedded struct, embedded pointer, embedded interface, two levels) to interfaces, take bound method values, method expressions and interface method values, use range-over-func, and call each other) type-checked from scratch per build; built serially without simulation as reference, then under 25 (thorough 50) seeded (schedule, driver) combinations with drivers {prog.Build; one task per package; two tasks per package; prog.Build twice concurrently; prog.Build with concurrent MethodValue callers; per-package Build of a subset plus prog.Build}; builder modes {0, InstantiateGenerics, +GlobalDebug, +SanityCheckFunctions, +NaiveForm, GlobalDebug, BareInits}; cpuLimit capacity in {1,2,4,16} (per case). An evaluation is one simulated build; distinct = distinct (kernel event digest, IR dump) pairs.",
 		Assumptions: []string{
 			"IR equality is textual equality of WriteFunction output after renaming t<N> values by first occurrence",
 			"the check at the moment Build returns reads other builders' state while they are parked (sound only because the simulator runs one task at a time)",
@@ -626,9 +633,6 @@ func (engine) Describe() batch.Description {
 }
 
 func main() {
-	batch.WorkerEnv = func(wid int) []string {
-		return []string{fmt.Sprintf("VERIF_PROCS=%d", []int{1, 2, 4, 16}[wid%4])}
-	}
 	_ = os.Getenv
 	batch.Main(engine{})
 }
